@@ -125,6 +125,60 @@ def bound_by_vcs() -> List[core.VC]:
     return vcs
 
 
+def common_parent_vcs() -> List[core.VC]:
+    """The helper that decides which event an end -> start edge is attributed to: the lowest event of the call stack that
+    encloses both events.  Executed by PyVC over an abstract forest (parent / depth functions, ancestor-or-self relation
+    ANC with its closure axioms); the `while` loop is discharged with an inductive invariant and a termination measure."""
+    f = extract.get_function(CPA, "CPGraph._construct_graph_from_call_stack.common_parent")
+    fq = [f.fq]
+    I = z3.IntSort()
+    PARENT, DEPTH = z3.Function("cs_parent", I, I), z3.Function("cs_depth", I, I)
+    ANC = z3.Function("ancestor_or_self", I, I, z3.BoolSort())  # ANC(x, y): y is x or an ancestor of x
+    ROOT = z3.IntVal(-1)
+    x, y, c = z3.Ints("tx ty tc")
+    tree = [
+        PARENT(ROOT) == ROOT, DEPTH(ROOT) == -1,
+        z3.ForAll([x], z3.Implies(x != ROOT, z3.And(DEPTH(PARENT(x)) == DEPTH(x) - 1, DEPTH(x) >= 0)), patterns=[PARENT(x)]),
+        z3.ForAll([x], ANC(x, x), patterns=[ANC(x, x)]),
+        z3.ForAll([x], ANC(x, ROOT), patterns=[ANC(x, ROOT)]),
+        z3.ForAll([x, y], z3.Implies(ANC(x, y), ANC(x, PARENT(y))), patterns=[z3.MultiPattern(ANC(x, y), PARENT(y))]),
+        z3.ForAll([x, y], z3.Implies(ANC(x, y), DEPTH(y) <= DEPTH(x)), patterns=[ANC(x, y)]),
+        z3.ForAll([x, y], z3.Implies(z3.And(ANC(x, y), y != x), ANC(PARENT(x), y)), patterns=[z3.MultiPattern(ANC(x, y), PARENT(x))]),
+        z3.ForAll([x, y], z3.Implies(z3.And(ANC(x, y), DEPTH(x) == DEPTH(y)), x == y), patterns=[ANC(x, y)]),
+    ]
+
+    class _Nodes:
+        def __deepcopy__(self, memo):
+            return self
+
+        def hv_getitem(self, ex, idx, pc):
+            i = to_z3(idx)
+            return pyvc.Record("CallStackNode", {"parent": PARENT(i), "depth": DEPTH(i)}, frozen=True)
+
+    ea, eb = z3.Ints("ev_a ev_b")
+    pa, pb = PARENT(ea), PARENT(eb)
+
+    def inv(env):
+        a, b = to_z3(env["a"]), to_z3(env["b"])
+        return z3.And(ANC(pa, a), ANC(pb, b), z3.ForAll([c], z3.Implies(z3.And(ANC(pa, c), ANC(pb, c)), z3.And(ANC(a, c), ANC(b, c))), patterns=[z3.MultiPattern(ANC(pa, c), ANC(pb, c))]))
+
+    ex = pyvc.Exec(consts={"NULL_NODE_INDEX": -1}, name=f"{PROP}.common_parent",
+                   loop_specs={0: pyvc.WhileSpec(["a", "b"], inv, variant=lambda env: DEPTH(to_z3(env["a"])) + DEPTH(to_z3(env["b"])) + 2, name="climb")})
+    outs = ex.run_function(extract.stripped(f), {"ev_a": ea, "ev_b": eb, "cs_nodes": _Nodes()}, [ea != ROOT, eb != ROOT])
+    vcs = [core.VC(pv.name, tree + pv.hyps, pv.goal, "vc", fq, {}, note=pv.note) for pv in ex.vcs]
+    rets = [o for o in outs if o.kind == "ret"]
+    if not rets or any(o.kind == "raise" for o in outs):
+        raise pyvc.Unsupported("common_parent: unexpected outcomes")
+    for k, o in enumerate(rets):
+        hy = tree + [to_z3(cc_) for cc_ in o.pc]
+        r = to_z3(o.value)
+        tag = f"{PROP}.common_parent" + (f".path{k}" if len(rets) > 1 else "")
+        vcs.append(core.VC(f"{tag}.encloses_both_events", hy, z3.And(ANC(pa, r), ANC(pb, r)), "vc", fq, {}, note="the result is the parent of, or an ancestor of the parent of, either event"))
+        vcs.append(core.VC(f"{tag}.is_the_lowest_such_event", hy + [ANC(pa, c), ANC(pb, c)], ANC(r, c), "vc", fq, {}, note="every event enclosing both events encloses the result"))
+    vcs.append(core.VC(f"{PROP}.common_parent.guard.tree_axioms_consistent", tree + [ea == 5, PARENT(ea) == 3, PARENT(3) == ROOT, eb == 7, PARENT(eb) == 3], z3.BoolVal(False), "vacuity", fq))
+    return vcs
+
+
 def records_vcs() -> List[core.VC]:
     f = extract.get_function(CPA, "CPGraph.get_critical_path_breakdown")
     g = extract.get_function(CPA, "CPGraph.summary")
@@ -153,7 +207,7 @@ def _case(seed: int) -> Dict[str, Any]:
 
     from hv import cpgen, rt
 
-    evs = cpgen.gen_cp_events(seed, n_steps=3, n_streams=1 + seed % 3, annotations=bool(seed % 2), n_threads=2 if seed % 4 == 1 else 1)
+    evs = cpgen.gen_cp_events(seed, n_steps=3, n_streams=1 + seed % 3, annotations=bool(seed % 2), n_threads=2 if seed % 4 == 1 else 1, frac_kernels=(seed % 4 == 2))
     inst = 0 if seed % 2 else (0, 1)
     fails: List[Dict[str, Any]] = []
     inp = {"seed": seed, "instance_id": inst, "events": {0: evs}}
@@ -176,10 +230,13 @@ def _case(seed: int) -> Dict[str, Any]:
         pw = sum(emap[(a, b)]["w"] for a, b in zip(path, path[1:]))
         df = g.trace_df
         stab = ta.t.symbol_table.get_sym_table()
-        ev = {int(i): dict(ts=int(ts), dur=int(du), stream=int(s), tid=int(tid), pid=int(pid), name=stab[int(nm)] if not isinstance(nm, str) else nm, cat=c)
+        def num(x):
+            return int(x) if float(x) == int(x) else float(x)
+
+        ev = {int(i): dict(ts=num(ts), dur=num(du), stream=int(s), tid=int(tid), pid=int(pid), name=stab[int(nm)] if not isinstance(nm, str) else nm, cat=c)
               for i, ts, du, s, tid, pid, nm, c in zip(df["index"], df["ts"], df["dur"], df["stream"], df["tid"], df["pid"], df["name"], df["cat"])}
         full = ta.t.get_trace(0)
-        fev = {int(i): dict(ts=int(ts), dur=int(du), stream=int(s), tid=int(tid), pid=int(pid)) for i, ts, du, s, tid, pid in zip(full["index"], full["ts"], full["dur"], full["stream"], full["tid"], full["pid"])}
+        fev = {int(i): dict(ts=num(ts), dur=num(du), stream=int(s), tid=int(tid), pid=int(pid)) for i, ts, du, s, tid, pid in zip(full["index"], full["ts"], full["dur"], full["stream"], full["tid"], full["pid"])}
 
         def bad(what, obs, exp=None, known=None):
             rec = {"what": what, "input": inp, "observed": obs, "expected": exp}
@@ -189,8 +246,8 @@ def _case(seed: int) -> Dict[str, Any]:
 
         if len(bd) != len(path) - 1:
             bad("one_row_per_critical_edge", len(bd), len(path) - 1)
-        if int(bd["duration"].sum()) != pw:
-            bad("durations_sum_to_path_weight", int(bd["duration"].sum()), pw)
+        if float(bd["duration"].sum()) != float(pw):
+            bad("durations_sum_to_path_weight", float(bd["duration"].sum()), float(pw))
         crit = {(int(e.begin), int(e.end)): e for e in g.critical_path_edges_set}
         for (u, v), e in crit.items():
             s, dd = nodes[u], nodes[v]
@@ -251,13 +308,14 @@ def bounded(ctx):
 
 def units(ctx):
     return [core.Unit(f"{PROP}.attribute_edge", attribute_vcs, [CPA + ".CPGraph._attribute_edge"]), core.Unit(f"{PROP}.bound_by", bound_by_vcs, [CPA + ".bound_by"]),
+            core.Unit(f"{PROP}.common_parent", common_parent_vcs, [CPA + ".CPGraph._construct_graph_from_call_stack.common_parent"]),
             core.Unit(f"{PROP}.records", records_vcs, [CPA + ".CPGraph.get_critical_path_breakdown", CPA + ".CPGraph.summary"])]
 
 
 SPEC = Spec(
     lean=['Folds.lean'],
     prop=PROP, level="other",
-    functions=[(CPA, "CPGraph._attribute_edge"), (CPA, "bound_by"), (CPA, "CPGraph.get_critical_path_breakdown"), (CPA, "CPGraph.summary")],
+    functions=[(CPA, "CPGraph._attribute_edge"), (CPA, "CPGraph._construct_graph_from_call_stack.common_parent"), (CPA, "bound_by"), (CPA, "CPGraph.get_critical_path_breakdown"), (CPA, "CPGraph.summary")],
     units=units, bounded=[Bounded("breakdown_vs_graph", bounded)],
     trusted=["is_comm_kernel is an uninterpreted predicate of the name", "the DFS state invariant last_ev_parent = parent(owner of last_node) (needed for 'covers' in case 4) is bounded only"],
     explanation="Proved (z3 from the AST): the attribution table and the bound-by table. Statement correspondence: record construction, join and summary. Bounded: row count, "
